@@ -28,6 +28,8 @@ def special_scalars():
         for k in (1, 2, 3, 7, 31415926535, (1 << 64) - 1):
             v = (k * base) % R
             out.update((v, R - v, (v + 1) % R, (v - 1) % R))
+    from vf.model import nt
+    out.update(nt.endo_scalars(R))        # lambda, lambda + 1, 2(lambda + 1), 1 - lambda ... for both eigenvalues
     out.update(((R - 1) // 2, (R + 1) // 2, (R - 1) // 3, 2 * (R - 1) // 3, R // 2 + X * X, (R - 1) // 2 - X * X))
     return sorted(v for v in out if 0 < v < R)
 
